@@ -51,6 +51,39 @@ def base_qcow2():
     return b, F, T
 
 
+def base_qcow2_ext():
+    def e(t, h, sub):
+        return {"t": t, "h": h, "sub": list(sub)}
+    # sub-cluster patterns (S = 32): every adjacency of unallocated / allocated / zero runs
+    pats = ["U" * 32, "Z" * 16 + "U" * 16, "U" * 8 + "Z" * 8 + "A" * 8 + "U" * 8, "ZU" * 16, "A" * 31 + "Z", "UZ" * 8 + "A" * 16, "Z" + "U" * 31]
+    l2 = {}
+    for k, p in enumerate(pats):
+        l2[k] = e("N" if "A" in p else "U", k + 1, p)
+    img = {"ext": True, "datafile": False, "l2n": 1024, "s": 32, "l1": {0: True}, "l2": l2, "back": len(pats) * 32, "size": len(pats) * 32}
+    vf, _, info = enc_qcow2.build(img, cluster_bits=14, K=1)
+    b = vf.peek_bytes(0, vf.size())
+    l1 = struct.unpack(">Q", b[40:48])[0]
+    l2o = struct.unpack(">Q", b[l1:l1 + 8])[0] & 0x00FFFFFFFFFFFE00
+    F = [("incompat", 72, 8, ">"), ("cluster_bits", 20, 4, ">")]
+    for k in range(len(pats)):
+        F.append((f"l2[{k}].entry", l2o + 16 * k, 8, ">"))
+        F.append((f"l2[{k}].bitmap", l2o + 16 * k + 8, 8, ">"))
+        F.append((f"l2[{k}].bitmap.lo32", l2o + 16 * k + 12, 4, ">"))
+        F.append((f"l2[{k}].bitmap.hi32", l2o + 16 * k + 8, 4, ">"))
+    T = [l2o + 8, l2o + 16, l2o + 16 * len(pats), len(b)]
+    return b, F, T
+
+
+def read_qcow2_ext(b):
+    from dissect.hypervisor.disk.qcow2 import QCow2
+    size = 7 * 16384
+    q = QCow2(io.BytesIO(b), backing_file=io.BytesIO(b"\x55" * size))
+    q.read(size)
+    for o in range(0, size, 16384):
+        q.seek(o + 512 * 7)
+        q.read(16384)
+
+
 def read_qcow2(b):
     from dissect.hypervisor.disk.qcow2 import QCow2
     q = QCow2(io.BytesIO(b))
@@ -241,7 +274,7 @@ def read_vmtar(b):
 
 
 FORMATS = {
-    "qcow2": (base_qcow2, read_qcow2), "vmdk-hosted": (lambda: base_vmdk("hosted"), read_vmdk), "vmdk-stream": (lambda: base_vmdk("stream"), read_vmdk),
+    "qcow2": (base_qcow2, read_qcow2), "qcow2-extl2": (base_qcow2_ext, read_qcow2_ext), "vmdk-hosted": (lambda: base_vmdk("hosted"), read_vmdk), "vmdk-stream": (lambda: base_vmdk("stream"), read_vmdk),
     "vmdk-cowd": (lambda: base_vmdk("cowd"), read_vmdk), "vmdk-se": (lambda: base_vmdk("se"), read_vmdk), "vhdx": (base_vhdx, read_vhdx),
     "vhd": (base_vhd, read_vhd), "vdi": (base_vdi, read_vdi), "hds1": (lambda: base_hds(1), read_hds), "hds2": (lambda: base_hds(2), read_hds),
     "hyperv": (base_hyperv, read_hyperv), "envelope": (base_envelope, read_envelope), "vmtar": (base_vmtar, read_vmtar),
@@ -298,15 +331,28 @@ def specials():
         def run(work):
             nodes = [{"id": 1, "parent": 0, "tbl": 1, "key": "k", "type": enc_hyperv.T_INT, "value": 1}]
             tables, fobjs, lay = enc_hyperv.plan_tables(nodes)
-            extra = [(enc_hyperv.OBJ_OBJTAB, 0x2000, 0x1000, 1)] if mode == "self" else [(enc_hyperv.OBJ_OBJTAB, 0x2000, 0x1000, 1)] * 3
-            b = enc_hyperv.build(tables, fobjs, extra_objects=extra)
+            more = None
+            if mode == "self":
+                extra = [(enc_hyperv.OBJ_OBJTAB, 0x2000, 0x1000, 1)]
+            elif mode == "multi":
+                extra = [(enc_hyperv.OBJ_OBJTAB, 0x2000, 0x1000, 1)] * 3
+            elif mode == "mutual":      # A lists B, B lists A
+                extra = [(enc_hyperv.OBJ_OBJTAB, 0x40000, 0x1000, 1)]
+                more = {0x40000: [(enc_hyperv.OBJ_OBJTAB, 0x2000, 0x1000, 1)]}
+            else:                       # A -> B -> C -> A, and C also lists B
+                extra = [(enc_hyperv.OBJ_OBJTAB, 0x40000, 0x1000, 1)]
+                more = {0x40000: [(enc_hyperv.OBJ_OBJTAB, 0x41000, 0x1000, 1)],
+                        0x41000: [(enc_hyperv.OBJ_OBJTAB, 0x2000, 0x1000, 1), (enc_hyperv.OBJ_OBJTAB, 0x40000, 0x1000, 1)]}
+            b = enc_hyperv.build(tables, fobjs, extra_objects=extra, more_objtabs=more)
             return lambda: read_hyperv(b)
         return run
 
     out.append(("hyperv", "object-table-lists-itself", hyperv_selfref("self"), 24, 4))
     out.append(("hyperv", "object-table-lists-itself-3x", hyperv_selfref("multi"), 24, 4))
+    out.append(("hyperv", "object-tables-list-each-other", hyperv_selfref("mutual"), 300, 4))
+    out.append(("hyperv", "object-table-cycle-of-three", hyperv_selfref("cycle3"), 300, 4))
 
-    def vmdk_bomb(work):
+    def vmdk_bomb(work, hdr_grain=None):
         # a stream-optimised grain whose deflate stream inflates to 256 MiB (the grain is 4 KiB)
         ents = [("D", 1), ("D", 2)]
         vf, info = enc_vmdk.build_hosted(ents, [True], capacity=16, grain=8, gtes=4, footer=True, compressed=True, lba=True, max_pos=3, slot_mult=80)
@@ -318,10 +364,14 @@ def specials():
         rec = struct.pack("<QI", 0, len(bomb)) + bomb
         assert len(rec) < 80 * 8 * 512
         b[g0:g0 + len(rec)] = rec
+        if hdr_grain is not None:
+            b[20:28] = struct.pack("<Q", hdr_grain)   # grain size field of the header copy in sector 0 (the footer is authoritative)
         blob = bytes(b)
         del b, bomb, rec
         return lambda: read_vmdk(blob)
     out.append(("vmdk-stream", "inflate-bomb-256MiB-in-4KiB-grain", vmdk_bomb, 300, 768))
+    out.append(("vmdk-stream", "inflate-bomb+header-copy-grain-size-0", lambda w: vmdk_bomb(w, 0), 300, 768))
+    out.append(("vmdk-stream", "inflate-bomb+header-copy-grain-size-huge", lambda w: vmdk_bomb(w, 1 << 40), 300, 768))
 
     def qcow2_bomb(work):
         b, F, T = base_qcow2()
@@ -366,7 +416,14 @@ def specials():
             return lambda: FORMATS[fmt][1](blob)
         return run
 
+    def valid(fmt):
+        def run(work):
+            blob = FORMATS[fmt][0]()[0]
+            return lambda: FORMATS[fmt][1](blob)
+        return run
+
     for fmt in FORMATS:
+        out.append((fmt, "valid-unmodified-input", valid(fmt), 6200, 768))
         out.append((fmt, "empty-input", empty(fmt), 0, 768))
         out.append((fmt, "random-8KiB", garbage(fmt, 1), 8, 768))
 
